@@ -9,6 +9,7 @@ import (
 	"log"
 	"net"
 	"net/http"
+	"net/http/httptest"
 	"os"
 	"sort"
 	"strconv"
@@ -294,5 +295,124 @@ func TestVerif_C16_presets(t *testing.T) {
 		}
 	}
 	s.Need(t, "chrome/raw", "chrome/h2", "chrome/h3", "firefox/h2", "safari/h3", "custom/raw", "raw-order-checked")
+	s.Finish()
+}
+
+// TestVerif_C16_apimerge: the header part of the request pipeline judged for C16 — client-level
+// and request-level headers of the same name in every spelling and with every kind of value,
+// registered through the public setters or assigned as maps, first attempts, retried attempts and
+// second sends: the header map handed to the transport must carry every header the caller set at
+// request level untouched, client defaults only under keys the request does not set, on EVERY
+// attempt (real Request.Send → middlewares → Client.roundTrip vs the Lean model Merge.buildRequest).
+func TestVerif_C16_apimerge(t *testing.T) {
+	s := c01New(t, "C16", "apimerge",
+		"as C01/pipeline with the generator turned towards headers: 1..5 extra client-level headers drawn from names in canonical, lower-case, mixed-case and underscore spellings (x-trace-id / X-Trace-Id / x-Trace-ID, x_feature, accept / Accept / ACCEPT …), each client key overlapped at request level in 6 of 7 cases by: the same spelling with a value, the lower-cased spelling, no value, the empty string (blanking a client default), [\"\", second]; maps assigned directly or registered with SetHeader / SetHeaderNonCanonical / SetCommonHeader / SetCommonHeaderNonCanonical; a fifth retried (503 then 200), a fifth sent twice; compared: the *http.Request of every attempt vs the model; non-trivial = request reached the transport")
+	c01LanePipe(t, s, "headers", verifh.N(2500, 60000))
+	s.Need(t, "sent", "attempt:2", "second-send", "via-setters", "cookies")
+	s.Finish()
+}
+
+// TestVerif_C16_connseq: SEQUENCES of requests through one client on one reused HTTP/2 connection
+// whose peer advertises a small SETTINGS_MAX_HEADER_LIST_SIZE (http.Server.MaxHeaderBytes = 2048):
+// ordinary requests, requests whose header list exceeds the limit (refused locally, or rejected by
+// the server), and legal requests that re-use name/value pairs of the previous ones. Whatever
+// happened before on the connection, a request that reaches the handler must show exactly the
+// header set the caller gave it (client-level + request-level, request wins per exact key).
+func TestVerif_C16_connseq(t *testing.T) {
+	s := c01New(t, "C16", "connseq",
+		"per sequence one forced-HTTP/2 client (keep-alive) against an in-process TLS origin with MaxHeaderBytes=2048; 6..14 requests, each deriving its 0..12 request headers from the previous request (kept, dropped, changed, added), a third blown up with 4..14 values of 100..400 bytes so that the header list exceeds the peer's limit; client-level defaults overlapped at request level (same non-canonical spelling, empty string); oracle: the call fails and nothing reaches the handler, or the handler sees exactly the expected header multiset; non-trivial = a legal request observed after a refused one on the same connection")
+	log.SetOutput(io.Discard)
+	defer log.SetOutput(os.Stderr)
+	o := &c01Origin{name: "h2"}
+	srv := httptest.NewUnstartedServer(o)
+	srv.EnableHTTP2 = true
+	srv.Config.MaxHeaderBytes = 2048
+	srv.StartTLS()
+	defer srv.Close()
+	o.base = srv.URL
+	r := s.Rand()
+	nseq := verifh.N(40, 600)
+	for q := 0; q < nseq; q++ {
+		c := c01NewClient("h2", r.Intn(2) == 0, true)
+		c.SetCommonHeaderNonCanonical("x-trace-id", "client-default")
+		c.SetCommonHeader("X-Feature", "on")
+		c.SetCommonHeader("X-Client-Only", "c")
+		hdr := map[string]string{}
+		refusedBefore := false
+		for k, n := 0, 6+r.Intn(9); k < n; k++ {
+			for name := range hdr {
+				if strings.HasPrefix(name, "X-Big-") || r.Intn(5) == 0 {
+					delete(hdr, name)
+				}
+			}
+			for i, m := 0, r.Intn(4); i < m; i++ {
+				hdr["X-H-"+strconv.Itoa(r.Intn(12))] = "v" + strconv.Itoa(r.Intn(5))
+			}
+			big := r.Intn(3) == 0
+			if big {
+				for i, m := 0, 4+r.Intn(11); i < m; i++ {
+					hdr["X-Big-"+strconv.Itoa(i)] = strings.Repeat(string(rune('a'+i)), 100+r.Intn(300))
+				}
+			}
+			rq := c.R().SetHeaders(hdr)
+			want := map[string][]string{"x-client-only": {"c"}, "x-trace-id": {"client-default"}, "x-feature": {"on"}, "user-agent": {"req/v3 (https://github.com/imroc/req)"}}
+			for name, v := range hdr {
+				want[strings.ToLower(name)] = []string{v}
+			}
+			switch r.Intn(4) {
+			case 0:
+				rq.SetHeaderNonCanonical("x-trace-id", "request-"+strconv.Itoa(k))
+				want["x-trace-id"] = []string{"request-" + strconv.Itoa(k)}
+			case 1:
+				rq.SetHeader("X-Feature", "")
+				want["x-feature"] = []string{""}
+			}
+			o.take()
+			resp, err := rq.Get(o.base + "/seq/" + strconv.Itoa(k))
+			seen := o.take()
+			id := fmt.Sprintf("seq%d/req%d big=%v after-refusal=%v", q, k, big, refusedBefore)
+			switch {
+			case len(seen) == 0:
+				ok := err != nil || (resp != nil && resp.StatusCode >= 400)
+				if ok {
+					refusedBefore = true
+					s.Count("refused")
+				}
+				s.Observe(id, ok, "", false, id, fmt.Sprintf("nothing reached the handler, err=%v", err))
+			case len(seen) > 1:
+				s.Observe(id, false, "", false, id, fmt.Sprintf("%d requests reached the handler", len(seen)))
+			default:
+				got := map[string][]string{}
+				for name, vs := range seen[0].header {
+					ln := strings.ToLower(name)
+					if ln == "accept-encoding" || ln == "content-length" {
+						continue
+					}
+					got[ln] = append(got[ln], vs...)
+				}
+				var gk, wk []string
+				for name, vs := range got {
+					sort.Strings(vs)
+					gk = append(gk, name+"="+strings.Join(vs, "|"))
+				}
+				for name, vs := range want {
+					wk = append(wk, name+"="+strings.Join(vs, "|"))
+				}
+				sort.Strings(gk)
+				sort.Strings(wk)
+				ok := strings.Join(gk, "\n") == strings.Join(wk, "\n")
+				why := ""
+				if !ok {
+					why = "header set differs:\n got: " + strings.Join(gk, " ; ") + "\nwant: " + strings.Join(wk, " ; ")
+				}
+				s.Count("observed")
+				if refusedBefore {
+					s.Count("observed-after-refusal")
+				}
+				s.Observe(id, ok, "", refusedBefore, id, why)
+			}
+		}
+	}
+	s.Need(t, "refused", "observed", "observed-after-refusal")
 	s.Finish()
 }
